@@ -125,16 +125,72 @@ def edge_dominates(fn, branch_bb, succ, inst):
     return succ == inst.bb.id or succ in fn.dom().get(inst.bb.id, ())
 
 
-def branch_conditions(fn, inst):
-    """list of (branch inst, taken-successor) pairs whose edge dominates inst (the guards inst is control dependent on, conservatively)"""
+class Guard:
+    """a condition known to hold (truth) at some instruction: g["cond"] is the i1 operand"""
+    __slots__ = ("cond", "branch")
+
+    def __init__(self, cond, branch):
+        self.cond = cond
+        self.branch = branch
+
+    def __getitem__(self, k):
+        if k == "cond":
+            return self.cond
+        return self.branch[k]
+
+
+def _implied(fn, cond, truth, term_bb, out, depth=0):
+    """record (cond, truth) and what it implies through short-circuit phis:  phi [false, A], [x, B] being true means
+    control came through B with x true (so B's own dominating guards hold as well)"""
+    out.append((Guard(cond, None), truth))
+    if depth > 4:
+        return
+    i = fn.resolve(cond)
+    if i is not None and i.op == "phi" and i["ty"] == "i1":
+        want = 1 if truth else 0
+        alive = []
+        for b, v in i["incoming"]:
+            c = v.get("v") if v.get("k") == "const" else None
+            if c is not None and (c & 1) != want:
+                continue
+            alive.append((b, v))
+        if len(alive) == 1:
+            b, v = alive[0]
+            if v.get("k") != "const":
+                _implied(fn, v, truth, b, out, depth + 1)
+            # guards of the block the value came from
+            last = fn.bmap[b].term
+            for (g, t) in branch_conditions(fn, last, depth + 1):
+                out.append((g, t))
+
+
+def branch_conditions(fn, inst, depth=0):
+    """list of (guard, truth) pairs known to hold whenever inst executes: conditions of branch edges that dominate inst,
+    plus what they imply through short-circuit (&&, ||) phis.  guard["cond"] is the condition operand."""
     out = []
+    if depth > 4:
+        return out
     for b in fn.blocks:
         t = b.term
-        if t.op == "br" and "cond" in t.d:
+        if t.op == "br" and "cond" in t.d and t["t"] != t["f"]:
             for s in (t["t"], t["f"]):
-                if t["t"] != t["f"] and edge_dominates(fn, b.id, s, inst):
-                    out.append((t, s == t["t"]))
+                if edge_dominates(fn, b.id, s, inst):
+                    _implied(fn, t["cond"], s == t["t"], b.id, out, depth)
     return out
+
+
+def cond_call(fn, cond, truth=True, depth=0):
+    """condition operand -> (call inst, polarity) when it is a (possibly negated / compared-with-zero) call result"""
+    i = fn.resolve(strip_casts(fn, cond))
+    if i is None or depth > 6:
+        return None, None
+    if i.op == "call":
+        return i, truth
+    if i.op == "icmp" and const_of(fn, i["b"]) == 0 and i["pred"] in ("eq", "ne"):
+        return cond_call(fn, i["a"], truth if i["pred"] == "ne" else not truth, depth + 1)
+    if i.op == "xor" and const_of(fn, i["b"]) in (1, -1):
+        return cond_call(fn, i["a"], not truth, depth + 1)
+    return None, None
 
 
 def strip_casts(fn, o):
